@@ -825,6 +825,75 @@ def witness(fid):
     return None
 
 
+# ---- instances carrying state BESIDE their fields (dict=True): a clone of the slotted instance keeps what a clone of the original keeps
+EXTRA_SRC = """
+import dataclasses, functools
+from typelib.py import classes
+def make(frozen, slotted, how):
+    @dataclasses.dataclass(frozen=frozen)
+    class P:
+        x: int
+        y: int = 2
+        def __post_init__(self):
+            if how == "post_init":
+                object.__setattr__(self, "norm", self.x * self.x + self.y * self.y)
+        @functools.cached_property
+        def area(self):
+            return self.x * self.y
+    P.__qualname__ = P.__name__ = "P_%s_%s_%s" % (frozen, slotted, how)
+    return classes.slotted(dict=True, weakref=False)(P) if slotted else P
+"""
+
+
+def _extra_child(_job):
+    import copy
+    import pickle
+    import sys
+    import types
+    import warnings
+    warnings.simplefilter("ignore")
+    mod = types.ModuleType("vm_c19_extra")
+    sys.modules["vm_c19_extra"] = mod
+    exec(EXTRA_SRC, mod.__dict__)
+    bad = []
+    for frozen in (True, False):
+        for how in ("post_init", "cached_property", "assigned"):
+            obs = {}
+            for slotted in (False, True):
+                C = mod.make(frozen, slotted, how)
+                setattr(mod, C.__name__, C)
+                C.__module__ = "vm_c19_extra"
+                v = C(3, 2)
+                if how == "cached_property":
+                    v.area
+                elif how == "assigned":
+                    object.__setattr__(v, "memo", [1, 2])
+                rows = {}
+                for label, fn in (("copy.copy", copy.copy), ("copy.deepcopy", copy.deepcopy),
+                                  ("pickle", lambda o: pickle.loads(pickle.dumps(o)))):
+                    try:
+                        c = fn(v)
+                        rows[label] = [[c.x, c.y], sorted((k, repr(val)) for k, val in getattr(c, "__dict__", {}).items() if k not in ("x", "y"))]
+                    except Exception as e:  # noqa: BLE001
+                        rows[label] = ["raised", type(e).__name__]
+                obs[slotted] = rows
+            for label in obs[False]:
+                if obs[False][label] != obs[True][label]:
+                    bad.append([f"frozen={frozen}, extra state via {how}: {label}", f"original class: {obs[False][label]}", f"slotted(dict=True): {obs[True][label]}"])
+    return bad
+
+
+def extra_state_probe(res):
+    bad = iso.map_isolated(_extra_child, [None], timeout=60.0)[0]
+    if not isinstance(bad, list):
+        raise RuntimeError(f"harness: extra-state probe failed: {bad}")
+    res.case({"family": "state-beside-the-fields"}, True)
+    for what, a, b in bad:
+        res.failures.append({"what": f"{what} of the slotted instance differs from the clone of the original: {a}; {b}", "input": {"extra_state": what}})
+    if not bad:
+        res.count("oracle:clones-keep-state-beside-the-fields", 18)
+
+
 def explore(ctx):
     core.import_typelib()
     res = Result()
@@ -833,12 +902,17 @@ def explore(ctx):
     jobs += [gen_history(ctx.rng, i) for i in range(ctx.n(220, 12000))]
     outs = iso.map_isolated(real_history, jobs)
     evaluate(jobs, outs, res)
+    extra_state_probe(res)
     return res
 
 
 def replay(failure):
     core.import_typelib()
     inp = failure["input"]
+    if "extra_state" in inp:
+        bad = iso.map_isolated(_extra_child, [None], timeout=60.0)[0]
+        print(json.dumps({"clones that differ": bad}, indent=1, default=str))
+        return bool(bad)
     job, i = inp["job"], inp["step"]
     out = iso.map_isolated(real_history, [job])[0]
     res = Result()
